@@ -997,11 +997,13 @@ func c12Consistency(c *Ctx) {
 			c.Unk("consistency/"+fnName(fn), "anchor: the outcome allocation", w.FnPos(fn), "not found")
 			continue
 		}
+		// the outcome read back from the variable that holds it (a variable captured by a closure) is the outcome
+		sameO := func(v ssa.Value) bool { return canonPtr(v) == ssa.Value(O) }
 		var storeBlocks []*ssa.BasicBlock
 		for _, b := range fn.Blocks {
 			for _, in := range b.Instrs {
 				if st, ok := in.(*ssa.Store); ok {
-					if fa, ok := st.Addr.(*ssa.FieldAddr); ok && fa.X == ssa.Value(O) && fieldName(O.Type(), fa.Field) == "Error" {
+					if fa, ok := st.Addr.(*ssa.FieldAddr); ok && sameO(fa.X) && fieldName(O.Type(), fa.Field) == "Error" {
 						storeBlocks = append(storeBlocks, b)
 					}
 				}
@@ -1020,7 +1022,7 @@ func c12Consistency(c *Ctx) {
 			c.Evals++
 			key := fmt.Sprintf("consistency/%s/exit#%d", fnName(fn), k)
 			rule := "outcome/error consistency: once the outcome exists an exit returns (outcome, nil) only on paths no store to outcome.Error reaches, and otherwise (outcome, the error just stored) or (outcome, outcome.Error)"
-			if r.Results[0] != ssa.Value(O) {
+			if !sameO(r.Results[0]) {
 				// the tail of the method moved into a helper that is handed the outcome: `return helper(…, outcome, …)`
 				if ok, why := c12TailConsistent(w, r, O, 0); ok {
 					c.OK(key, rule+" (through a helper that returns the outcome it was handed with that outcome's error)", w.InstrPos(r))
@@ -1046,7 +1048,7 @@ func c12Consistency(c *Ctx) {
 				okSt := false
 				for _, in := range b.Instrs {
 					if st, ok := in.(*ssa.Store); ok {
-						if fa, ok := st.Addr.(*ssa.FieldAddr); ok && fa.X == ssa.Value(O) && fieldName(O.Type(), fa.Field) == "Error" && st.Val == e {
+						if fa, ok := st.Addr.(*ssa.FieldAddr); ok && sameO(fa.X) && fieldName(O.Type(), fa.Field) == "Error" && st.Val == e {
 							okSt = true
 						}
 					}
@@ -1335,14 +1337,33 @@ func c12TailConsistent(w *World, r *ssa.Return, O ssa.Value, depth int) (bool, s
 	}
 	idx := -1
 	for i, a := range call.Call.Args {
-		if unwrap(a) == O {
+		if canonPtr(unwrap(a)) == O {
 			idx = i
 		}
 	}
-	if idx < 0 || idx >= len(g.Params) {
+	var P ssa.Value
+	// isP: the value is the outcome inside the helper — its parameter, or (a local closure) the captured variable read back
+	isP := func(v ssa.Value) bool { return P != nil && v == P }
+	if idx >= 0 && idx < len(g.Params) {
+		P = g.Params[idx]
+	} else if mc, ok := call.Call.Value.(*ssa.MakeClosure); ok {
+		// a closure of the calling function that captured the variable holding the outcome and only reads that variable
+		for k, bnd := range mc.Bindings {
+			al, ok := bnd.(*ssa.Alloc)
+			if !ok || k >= len(g.FreeVars) || singleStore(al) == nil || canonPtr(singleStore(al)) != O {
+				continue
+			}
+			fv := g.FreeVars[k]
+			P = fv
+			isP = func(v ssa.Value) bool {
+				ld, ok := v.(*ssa.UnOp)
+				return ok && ld.Op == token.MUL && ld.X == ssa.Value(fv)
+			}
+		}
+	}
+	if P == nil {
 		return false, " (the helper is not handed the outcome)"
 	}
-	P := g.Params[idx]
 	gi := w.Info(g)
 	for _, b := range g.Blocks {
 		gr, ok := blockTerm(b).(*ssa.Return)
@@ -1352,7 +1373,7 @@ func c12TailConsistent(w *World, r *ssa.Return, O ssa.Value, depth int) (bool, s
 		if len(gr.Results) != 2 {
 			return false, ""
 		}
-		if gr.Results[0] != ssa.Value(P) {
+		if !isP(gr.Results[0]) {
 			if ok, _ := c12TailConsistent(w, gr, P, depth+1); ok {
 				continue
 			}
@@ -1364,7 +1385,7 @@ func c12TailConsistent(w *World, r *ssa.Return, O ssa.Value, depth int) (bool, s
 			for _, sb := range g.Blocks {
 				for _, in := range sb.Instrs {
 					if st, ok := in.(*ssa.Store); ok {
-						if fa, ok := st.Addr.(*ssa.FieldAddr); ok && fa.X == ssa.Value(P) && fieldName(P.Type(), fa.Field) == "Error" {
+						if fa, ok := st.Addr.(*ssa.FieldAddr); ok && isP(fa.X) && fieldName(fa.X.Type(), fa.Field) == "Error" {
 							if sb == b || gi.reachHit([]state{{sb.Index, 0, -1}}, nil, map[int]bool{b.Index: true}) {
 								return false, " (the helper returns nil after storing an error)"
 							}
@@ -1374,18 +1395,19 @@ func c12TailConsistent(w *World, r *ssa.Return, O ssa.Value, depth int) (bool, s
 			}
 			// nil although the caller may already have recorded a failure: only acceptable if the helper reports the cell
 			return false, " (the helper returns a nil error regardless of the error already recorded in the outcome)"
-		case gi.cellOfLoad(e) >= 0 && gi.cells[gi.cellOfLoad(e)].base == ssa.Value(P):
+		case gi.cellOfLoad(e) >= 0 && isP(gi.cells[gi.cellOfLoad(e)].base):
 			// (outcome, outcome.Error)
 		default:
 			okSt := false
 			for _, in := range b.Instrs {
 				if st, ok := in.(*ssa.Store); ok {
-					if fa, ok := st.Addr.(*ssa.FieldAddr); ok && fa.X == ssa.Value(P) && fieldName(P.Type(), fa.Field) == "Error" && st.Val == e {
+					if fa, ok := st.Addr.(*ssa.FieldAddr); ok && isP(fa.X) && fieldName(fa.X.Type(), fa.Field) == "Error" && st.Val == e {
 						okSt = true
 					}
 				}
 			}
-			if !okSt || !gi.nonNil(e, b) {
+			// the value returned is the value just stored into the outcome's Error (nil or not: the two always agree)
+			if !okSt {
 				return false, " (the helper returns an error it did not record)"
 			}
 		}
